@@ -16,175 +16,18 @@ It is proved for every history whose operations meet the decidable precondition 
 -/
 import PagexmlModel.Lemmas.C02Ops
 import PagexmlModel.Lemmas.C02Fuel
+import PagexmlModel.Lemmas.C02Step
+import PagexmlModel.Lemmas.C02Parse
 
 namespace Pagexml.C02
 
 /-! ### every operation preserves the invariant -/
 
-private theorem refs_all {σ : Store} {l : List Nat} (h : l.all σ.has = true) : ∀ c ∈ l, σ.has c = true :=
-  fun c hc => List.all_eq_true.mp h c hc
-
-private theorem freeKids_of_pre {σ : Store} {l : List Nat} (hr : ∀ c ∈ l, σ.has c = true)
-    (hp : l.all (fun c => σ.free c && σ.notScan c) = true) : ∀ c ∈ l, FreeKid σ c := by
-  intro c hc
-  have := List.all_eq_true.mp hp c hc
-  simp only [Bool.and_eq_true] at this
-  exact freeKid_of (hr c hc) this.1 this.2
-
-private theorem attachables_of_pre {σ : Store} {p : Nat} {l : List Nat} (hr : ∀ c ∈ l, σ.has c = true)
-    (hp : l.all (fun c => σ.onlyBy c p && σ.notScan c) = true) : ∀ c ∈ l, Attachable σ p c := by
-  intro c hc
-  have := List.all_eq_true.mp hp c hc
-  simp only [Bool.and_eq_true] at this
-  exact attachable_of (hr c hc) this.1 this.2
-
 /-- **One step.**  An operation that meets the precondition keeps the invariant, whatever it
     returns (including the calls that raise after having mutated the objects). -/
 theorem C02_step_preserves {σ σ' : Store} {op : Op} {o : Out}
-    (hpre : Pre σ op = true) (hinv : Inv σ) (hstep : step σ op = .ok (σ', o)) : Inv σ' := by
-  unfold Pre at hpre
-  rw [Bool.and_eq_true] at hpre
-  obtain ⟨hrefs, hpre⟩ := hpre
-  unfold step at hstep
-  rw [hrefs] at hstep
-  simp only [Bool.not_true, Bool.false_eq_true, if_false] at hstep
-  have hr := refs_all hrefs
-  cases op with
-  | mkWord a =>
-    simp only [Except.ok.injEq] at hstep
-    rw [show σ' = (mkWord σ a).1 from by rw [hstep]]; exact inv_mkWord a hinv
-  | mkLine a ws =>
-    simp only [Except.ok.injEq] at hstep
-    rw [show σ' = (mkLine σ a ws).1 from by rw [hstep]]; exact inv_mkLine a ws hinv (freeKids_of_pre hr hpre)
-  | mkRegion col a ls rs ts =>
-    simp only [Except.ok.injEq] at hstep
-    rw [show σ' = (mkRegion σ col a ls rs ts).1 from by rw [hstep]]; exact inv_mkRegion col a ls rs ts hinv (freeKids_of_pre hr hpre)
-  | mkPage a ls rs ts cols ex =>
-    simp only [Except.ok.injEq] at hstep
-    rw [show σ' = (mkPage σ a ls rs ts cols ex).1 from by rw [hstep]]; exact inv_mkPage a ls rs ts cols ex hinv (freeKids_of_pre hr hpre)
-  | mkScan a ls rs ts cols pages =>
-    exact inv_mkScan a ls rs ts cols pages hinv (freeKids_of_pre hr hpre) hstep
-  | mkCell a ls =>
-    simp only [Except.ok.injEq] at hstep
-    rw [show σ' = (mkCell σ a ls).1 from by rw [hstep]]; exact inv_mkCell a ls hinv (freeKids_of_pre hr hpre)
-  | mkRow a cs =>
-    simp only [Except.ok.injEq] at hstep
-    rw [show σ' = (mkRow σ a cs).1 from by rw [hstep]]; exact inv_mkRow a cs hinv (freeKids_of_pre hr hpre)
-  | mkTable a rs =>
-    simp only [Except.ok.injEq] at hstep
-    rw [show σ' = (mkTable σ a rs).1 from by rw [hstep]]; exact inv_mkTable a rs hinv (freeKids_of_pre hr hpre)
-  | addChild p c asExtra =>
-    simp only [Bool.and_eq_true] at hpre
-    have hc : FreeKid σ c := freeKid_of (hr c (by simp [Op.refs])) hpre.1 hpre.2
-    obtain ⟨pn, gp⟩ := get?_of_lt (has_iff.mp (hr p (by simp [Op.refs])))
-    obtain ⟨cn, gc⟩ := get?_of_lt (has_iff.mp (hr c (by simp [Op.refs])))
-    simp only [clsOf, gp, gc, Option.map_some] at hstep
-    cases hcl : pn.cls <;> simp only [hcl] at hstep
-    case region => exact inv_addChildRegion cn.cls hinv gp (Or.inl hcl) hc hstep
-    case column => exact inv_addChildRegion cn.cls hinv gp (Or.inr hcl) hc hstep
-    case page => exact inv_addChildPage cn.cls asExtra hinv gp hcl hc hstep
-    case scan => exact inv_addChildScan cn.cls hinv gp hcl hc hstep
-    all_goals
-      simp only [Except.ok.injEq, Prod.mk.injEq] at hstep
-      rw [← hstep.1]; exact hinv
-  | setParent c p =>
-    simp only [Bool.and_eq_true] at hpre
-    simp only [Except.ok.injEq, Prod.mk.injEq] at hstep
-    rw [← hstep.1]
-    exact inv_setParent1 hinv (has_iff.mp (hr p (by simp [Op.refs])))
-      (attachable_of (hr c (by simp [Op.refs])) hpre.1 hpre.2)
-  | setAsParent p cs =>
-    simp only [Except.ok.injEq, Prod.mk.injEq] at hstep
-    rw [← hstep.1]
-    exact (inv_setAsParent cs hinv (has_iff.mp (hr p (by simp [Op.refs])))
-      (attachables_of_pre (fun c hc => hr c (by simp [Op.refs, hc])) hpre)).1
-  | attachLines p cs =>
-    simp only [Bool.and_eq_true] at hpre
-    simp only [Except.ok.injEq, Prod.mk.injEq] at hstep
-    rw [← hstep.1]
-    obtain ⟨pn, gp⟩ := get?_of_lt (has_iff.mp (hr p (by simp [Op.refs])))
-    refine inv_attach (f := fun nd => { nd with lines := cs }) hinv gp ?_
-      (attachables_of_pre (fun c hc => hr c (by simp [Op.refs, hc])) hpre.2)
-      (free_iff.mp hpre.1.1) (notScan_iff.mp hpre.1.2 pn gp) (fun x hx => by simp [Node.allKids, hx])
-    refine ⟨rfl, rfl, rfl, rfl, rfl, rfl, ?_, ?_⟩
-    · intro x hx
-      simp only [Node.allKids, List.mem_append] at hx ⊢
-      grind
-    · intro x hx
-      unfold Node.kids at hx ⊢
-      cases hc : pn.cls <;> simp only [hc, List.mem_append, List.not_mem_nil] at hx ⊢ <;> grind
-  | attachRegions p cs =>
-    simp only [Bool.and_eq_true] at hpre
-    simp only [Except.ok.injEq, Prod.mk.injEq] at hstep
-    rw [← hstep.1]
-    obtain ⟨pn, gp⟩ := get?_of_lt (has_iff.mp (hr p (by simp [Op.refs])))
-    refine inv_attach (f := fun nd => { nd with regions := cs }) hinv gp ?_
-      (attachables_of_pre (fun c hc => hr c (by simp [Op.refs, hc])) hpre.2)
-      (free_iff.mp hpre.1.1) (notScan_iff.mp hpre.1.2 pn gp) (fun x hx => by simp [Node.allKids, hx])
-    refine ⟨rfl, rfl, rfl, rfl, rfl, rfl, ?_, ?_⟩
-    · intro x hx
-      simp only [Node.allKids, List.mem_append] at hx ⊢
-      grind
-    · intro x hx
-      unfold Node.kids at hx ⊢
-      cases hc : pn.cls <;> simp only [hc, List.mem_append, List.not_mem_nil] at hx ⊢ <;> grind
-  | attachRows p cs =>
-    simp only [Bool.and_eq_true] at hpre
-    simp only [Except.ok.injEq, Prod.mk.injEq] at hstep
-    rw [← hstep.1]
-    obtain ⟨pn, gp⟩ := get?_of_lt (has_iff.mp (hr p (by simp [Op.refs])))
-    refine inv_attach (f := fun nd => { nd with rows := cs }) hinv gp ?_
-      (attachables_of_pre (fun c hc => hr c (by simp [Op.refs, hc])) hpre.2)
-      (free_iff.mp hpre.1.1) (notScan_iff.mp hpre.1.2 pn gp) (fun x hx => by simp [Node.allKids, hx])
-    refine ⟨rfl, rfl, rfl, rfl, rfl, rfl, ?_, ?_⟩
-    · intro x hx
-      simp only [Node.allKids, List.mem_append] at hx ⊢
-      grind
-    · intro x hx
-      unfold Node.kids at hx ⊢
-      cases hc : pn.cls <;> simp only [hc, List.mem_append, List.not_mem_nil] at hx ⊢ <;> grind
-  | setParentage p =>
-    simp only [] at hstep
-    cases hsp : setParentage (σ.size + 1) σ p with
-    | error e => rw [hsp] at hstep; cases hstep
-    | ok σ₁ =>
-      rw [hsp] at hstep
-      simp only [bind, Except.bind, pure, Except.pure, Except.ok.injEq, Prod.mk.injEq] at hstep
-      rw [← hstep.1]
-      exact (inv_setParentage _ _ _ _ hinv hsp).1
-  | addType n ts =>
-    simp only [Except.ok.injEq, Prod.mk.injEq] at hstep
-    rw [← hstep.1]
-    exact inv_upd_local (localChange_addType ts) (fun nd _ ht => typedNode_addType ts ht) hinv
-  | removeType n ts =>
-    simp only [Except.ok.injEq, Prod.mk.injEq] at hstep
-    rw [← hstep.1]
-    refine inv_upd_local (localChange_removeType ts) (fun nd g ht => typedNode_removeType ts ht ?_) hinv
-    simp only [clsOf, g, Option.map_some] at hpre
-    intro t ht hmem
-    have := List.all_eq_true.mp hpre t ht
-    simp [hmem] at this
-  | hasType n t =>
-    simp only [] at hstep
-    cases hg : σ.get? n with
-    | none => rw [hg] at hstep; cases hstep
-    | some nd =>
-      rw [hg] at hstep
-      simp only [Except.ok.injEq, Prod.mk.injEq] at hstep
-      rw [← hstep.1]; exact hinv
-  | types n =>
-    simp only [] at hstep
-    cases hg : σ.get? n with
-    | none => rw [hg] at hstep; cases hstep
-    | some nd =>
-      rw [hg] at hstep
-      simp only [Except.ok.injEq, Prod.mk.injEq] at hstep
-      rw [← hstep.1]; exact hinv
-  | setFilename n v =>
-    simp only [Except.ok.injEq, Prod.mk.injEq] at hstep
-    rw [← hstep.1]
-    exact inv_setMeta_other "filename" (.str v) hinv (by decide) (by decide) (by decide)
-      (fun c => by cases c <;> decide)
+    (hpre : Pre σ op = true) (hinv : Inv σ) (hstep : step σ op = .ok (σ', o)) : Inv σ' :=
+  step_preserves hpre hinv hstep
 
 /-! ### non-vacuity: a concrete history (word → line → region → scan, late add_child, tags) -/
 
@@ -450,18 +293,77 @@ example : ∃ σ nd, run Store.empty [.mkWord (A "w"), .addType 0 ["x"], .remove
     σ.get? 0 = some nd ∧ hasType nd.type "x" = false ∧ hasType nd.type "word" = true := by
   refine ⟨_, _, rfl, rfl, ?_, ?_⟩ <;> decide
 
-/-! ### fuel of the recursions over the object graph -/
+/-! ### fuel of the recursions over the object graph: the structure is a forest of bounded depth -/
 
-/-
-Full statement wanted (BUILDING.md: "fuel suffices is a theorem"):
-    for every store reachable by a disciplined history, `set_scan_id` / `set_parentage` with the
-    fuel `σ.size + 1` used by `step` never answer `.error RecursionError`.
-Proved below: the recursion succeeds whenever the nesting depth below the start node is within
-the fuel (`Height`).  Missing: that reachable stores have depth ≤ size — `Pre` does not exclude
-`add_child` of an ancestor (which builds a cycle, on which CPython raises RecursionError too),
-and the bound needs a counting argument over the forest.  All invariant theorems above are
-conditional on `step … = .ok …`, so they do not depend on this.
--/
+private theorem runs_of {ops : List Op} {σ : Store} (hp : runPre Store.empty ops = true)
+    (hr : run Store.empty ops = .ok σ) : Runs Store.empty ops σ := ⟨hr, hp⟩
+
+/-- **No cycles.**  In a store reached by a disciplined history no element sits strictly below
+    itself: `Pre` excludes attaching an element to itself or to something below it (that is the
+    "trees" reading of the property; CPython raises RecursionError on such a structure). -/
+theorem C02_acyclic (ops : List Op) (σ : Store) (hp : runPre Store.empty ops = true) (hr : run Store.empty ops = .ok σ) :
+    Acyclic σ := (good_run good_empty (runs_of hp hr)).ac
+
+/-- **Depth ≤ number of objects.**  Every chain of child links of a reachable store has at most
+    `σ.size` nodes (`Height σ n d`: all chains from `n` have at most `d` nodes). -/
+theorem C02_depth_le_size (ops : List Op) (σ : Store) (hp : runPre Store.empty ops = true)
+    (hr : run Store.empty ops = .ok σ) (n : Nat) (hn : n < σ.size) : Height σ n σ.size :=
+  height_of_acyclic (C02_reachable ops σ hp hr).shape.closed' (C02_acyclic ops σ hp hr) n hn
+
+/-- **Fuel suffices.**  On a store reached by a disciplined history, an operation that meets the
+    precondition never answers `.error`: `set_scan_id` and `set_parentage` (run with fuel
+    `size + 1`) do not run out of fuel, and no object is missing.  (Replaces the earlier partial
+    statement, which had the depth bound as a hypothesis.) -/
+theorem C02_fuel_suffices (ops : List Op) (σ : Store) (hp : runPre Store.empty ops = true)
+    (hr : run Store.empty ops = .ok σ) (op : Op) (hpre : Pre σ op = true) : ∃ r, step σ op = .ok r :=
+  step_total (C02_reachable ops σ hp hr) (C02_acyclic ops σ hp hr) hpre
+
+/-- a disciplined history never fails, however long -/
+theorem C02_run_total (ops : List Op) (hp : runPre Store.empty ops = true) : ∃ σ, run Store.empty ops = .ok σ := by
+  have : ∀ (ops : List Op) (σ : Store), Good σ → runPre σ ops = true → ∃ σ', run σ ops = .ok σ' := by
+    intro ops
+    induction ops with
+    | nil => intro σ _ _; exact ⟨σ, rfl⟩
+    | cons op ops ih =>
+      intro σ g hp
+      simp only [runPre, Bool.and_eq_true] at hp
+      obtain ⟨σ', o, hs, g', _⟩ := good_step g hp.1
+      rw [hs] at hp
+      obtain ⟨σ'', h⟩ := ih σ' g' hp.2
+      exact ⟨σ'', by simp only [run, hs]; exact h⟩
+  exact this ops Store.empty good_empty hp
+
+example : ∃ σ, run Store.empty demo = .ok σ := C02_run_total demo (by decide)
+example : ∃ σ, run Store.empty demo = .ok σ ∧ Acyclic σ := by
+  obtain ⟨σ, h⟩ := demo_ok
+  exact ⟨σ, h, C02_acyclic demo σ (by decide) h⟩
+example : ∃ σ, run Store.empty demo = .ok σ ∧ Height σ 3 σ.size := by
+  obtain ⟨σ, h⟩ := demo_ok
+  have hs : 3 < σ.size := by
+    have : (run Store.empty demo).toOption.map (fun σ => decide (3 < σ.size)) = some true := by decide
+    rw [h] at this
+    simpa [Except.toOption] using this
+  exact ⟨σ, h, C02_depth_le_size demo σ (by decide) h 3 hs⟩
+example : ∃ σ, run Store.empty demo = .ok σ ∧ ∃ r, step σ (.setParentage 3) = .ok r := by
+  obtain ⟨σ, h⟩ := demo_ok
+  have hs : Pre σ (.setParentage 3) = true := by
+    have : (run Store.empty demo).toOption.map (fun σ => Pre σ (.setParentage 3)) = some true := by decide
+    rw [h] at this
+    simpa [Except.toOption] using this
+  exact ⟨σ, h, C02_fuel_suffices demo σ (by decide) h _ hs⟩
+
+/-- attaching an ancestor is outside the discipline (and CPython's `set_scan_id` would recurse for
+    ever on the result): the region `1` holds the region `0`; `add_child(0, 1)` does not meet `Pre` -/
+example : runPre Store.empty [.mkRegion false (A "in") [] [] [], .mkRegion false (A "out") [] [0] [],
+    .addChild 0 1 false] = false := by decide
+example : runPre Store.empty [.mkRegion false (A "r") [] [] [], .addChild 0 0 false] = false := by decide
+example : runPre Store.empty [.mkRegion false (A "r") [] [] [], .attachRegions 0 [0]] = false := by decide
+/-- … while attaching an unrelated free element is inside -/
+example : runPre Store.empty [.mkRegion false (A "in") [] [] [], .mkRegion false (A "out") [] [0] [],
+    .mkRegion false (A "x") [] [] [], .addChild 0 2 false] = true := by decide
+
+/-- the earlier, conditional form (kept: it also covers stores outside the discipline whose depth is
+    known): the recursion succeeds whenever the nesting depth below the start node is within the fuel -/
 theorem C02_fuel_suffices_partial (σ : Store) (n f : Nat) (v : MVal) (h : Height σ n f) :
     (∃ σ', setScanId f σ n v = .ok σ') ∧ (Inv σ → ∃ σ', setParentage f σ n = .ok σ') :=
   ⟨setScanId_ok f σ n v h, fun hI => setParentage_ok f σ n hI h⟩
@@ -486,5 +388,108 @@ example : Height twoLevel 1 2 := by
 
 example : (setScanId 2 twoLevel 1 (.str "s")).toOption.isSome = true := by decide
 example : (setScanId 1 twoLevel 1 (.str "s")).toOption.isSome = false := by decide
+
+
+/-! ### the three ways documents come into being are disciplined histories
+
+`JTree.hist false` (bottom-up through the constructors), `JTree.hist true` (the JSON builders:
+constructors bottom-up, each followed by `set_parentage`) and `PScan.hist` (the XML parser: regions
+and tables constructed empty and filled through its attach statements, then the scan constructor)
+are defined in Model/C02Hist.lean as functions from a document tree to `List Op`.  For EVERY tree
+(any nesting, any fan-out, any arguments) these histories meet `Pre` at every operation, never
+fail, and therefore end in a store satisfying the invariant — so `C02_linked`, `C02_scan_tagged`,
+`C02_typed`, `C02_forest`, `C02_acyclic` hold of every parsed, rebuilt or bottom-up built
+document, also when it is built next to documents that exist already (`ops₀`). -/
+
+/-- **C02_json_linked** (and bottom-up construction: `json = false`).  After any disciplined
+    history `ops₀`, the history of any tree runs to the end, meets `Pre` throughout, and the store
+    it ends in satisfies the invariant; the root is the object created last but `0`/`1`. -/
+theorem C02_json_linked (json : Bool) (t : JTree) (hv : t.valid = true) (ops₀ : List Op) (σ₀ : Store)
+    (hp₀ : runPre Store.empty ops₀ = true) (hr₀ : run Store.empty ops₀ = .ok σ₀) :
+    ∃ σ, run Store.empty (ops₀ ++ (t.hist json σ₀.size).1) = .ok σ ∧
+      runPre Store.empty (ops₀ ++ (t.hist json σ₀.size).1) = true ∧ Inv σ ∧ Acyclic σ ∧
+      clsOf σ (t.hist json σ₀.size).2 = some t.kind ∧ σ.size = (t.hist json σ₀.size).2 + 1 := by
+  have g₀ := good_run good_empty (runs_of hp₀ hr₀)
+  obtain ⟨σ, R, N⟩ := jtree_spec json t σ₀ g₀ hv
+  have R' := (runs_of hp₀ hr₀).append R
+  exact ⟨σ, R'.1, R'.2, N.good.inv, N.good.ac, N.cls, N.size⟩
+
+/-- **C02_parse_linked.**  The same for the XML parser's history of any scan: text regions of any
+    nesting with lines and words, in either child order, with or without a type tag; table regions
+    with rows of cells of lines. -/
+theorem C02_parse_linked (s : PScan) (hv : s.valid = true) (ops₀ : List Op) (σ₀ : Store)
+    (hp₀ : runPre Store.empty ops₀ = true) (hr₀ : run Store.empty ops₀ = .ok σ₀) :
+    ∃ σ, run Store.empty (ops₀ ++ (s.hist σ₀.size).1) = .ok σ ∧
+      runPre Store.empty (ops₀ ++ (s.hist σ₀.size).1) = true ∧ Inv σ ∧ Acyclic σ ∧
+      clsOf σ (s.hist σ₀.size).2 = some .scan ∧ σ.size = (s.hist σ₀.size).2 + 1 := by
+  have g₀ := good_run good_empty (runs_of hp₀ hr₀)
+  obtain ⟨σ, R, g, hc, hs⟩ := pscan_spec s σ₀ g₀ hv
+  have R' := (runs_of hp₀ hr₀).append R
+  exact ⟨σ, R'.1, R'.2, g.inv, g.ac, hc, hs⟩
+
+/-- hence every clause of the statement holds of every parsed document: spelled out for the links -/
+theorem C02_parsed_document_linked (s : PScan) (hv : s.valid = true) :
+    ∃ σ, run Store.empty (s.hist 0).1 = .ok σ ∧
+      ∀ p c pn, σ.get? p = some pn → c ∈ pn.kids →
+        ∃ cn, σ.get? c = some cn ∧ cn.parent = some p ∧ mget cn.md "parent_id" = some pn.id ∧
+          mget cn.md "parent_type" = some (.str pn.cls.mainType) ∧
+          mget cn.md (pn.cls.mainType ++ "_id") = some pn.id := by
+  obtain ⟨σ, hr, hp, _⟩ := C02_parse_linked s hv [] Store.empty rfl rfl
+  exact ⟨σ, hr, fun p c pn g hc => C02_linked _ σ hp hr p c pn g hc⟩
+
+/-- … and of every document rebuilt from JSON, for the scan id -/
+theorem C02_rebuilt_document_scan_tagged (t : JTree) (hv : t.valid = true) :
+    ∃ σ, run Store.empty (t.hist true 0).1 = .ok σ ∧
+      ∀ s n sn nn, σ.get? s = some sn → sn.cls = .scan → Below σ n s → σ.get? n = some nn →
+        mget nn.md "scan_id" = some sn.id := by
+  obtain ⟨σ, hr, hp, _⟩ := C02_json_linked true t hv [] Store.empty rfl rfl
+  exact ⟨σ, hr, fun s n sn nn gs hs hb gn => C02_scan_tagged _ σ hp hr s n sn nn gs hs hb gn⟩
+
+/-! non-vacuity: a scan with a page (column, extra region), a nested region, a table -/
+
+private def jw (i : String) : JTree := .node .word false (A i) []
+private def jl (i : String) (ws : List JTree) : JTree := .node .line false (A i) ws
+private def jr (i : String) (extra : Bool) (ks : List JTree) : JTree := .node .region extra (A i) ks
+private def jtab : JTree :=
+  .node .table false (A "t") [.node .row false (A "row0") [.node .cell false (A "c0") [jl "cl" []], .node .cell false (A "c1") []]]
+private def jscan : JTree :=
+  .node .scan false (A "s") [
+    .node .page false (A "p") [jr "ex" true [jl "l0" []], .node .column false (A "col") [jr "r1" false [jl "l1" [jw "w1", jw "w2"]]]],
+    jr "r2" false [jr "r3" false [jl "l3" []], jl "l2" []],
+    jtab]
+
+example : jscan.valid = true := by decide
+example : ((jscan.hist true 0).1.length, (jscan.hist false 0).1.length, (jscan.hist true 0).2) = (29, 19, 17) := by decide
+example : ∃ σ, run Store.empty (jscan.hist true 0).1 = .ok σ ∧ Inv σ := by
+  obtain ⟨σ, hr, _, hi, _⟩ := C02_json_linked true jscan (by decide) [] Store.empty rfl rfl
+  exact ⟨σ, hr, hi⟩
+/-- rebuilt next to the original: the rebuild history starts when the original's objects exist -/
+example : ∃ σ, run Store.empty ((jscan.hist false 0).1 ++ (jscan.hist true 18).1) = .ok σ ∧ Inv σ ∧ σ.size = 36 := by
+  have h0 : ∃ σ₀, run Store.empty (jscan.hist false 0).1 = .ok σ₀ ∧ runPre Store.empty (jscan.hist false 0).1 = true
+      ∧ σ₀.size = 18 := by
+    obtain ⟨σ₀, hr, hp, _, _, _, hs⟩ := C02_json_linked false jscan (by decide) [] Store.empty rfl rfl
+    exact ⟨σ₀, hr, hp, by rw [hs]; decide⟩
+  obtain ⟨σ₀, hr₀, hp₀, hs₀⟩ := h0
+  obtain ⟨σ, hr, _, hi, _, _, hs⟩ := C02_json_linked true jscan (by decide) _ σ₀ hp₀ hr₀
+  rw [hs₀] at hr hs
+  exact ⟨σ, hr, hi, by rw [hs]; decide⟩
+/-- a row without cells is not a document (the row constructor raises) -/
+example : (JTree.node .row false (A "r") []).valid = false := by decide
+
+private def pscan : PScan :=
+  { a := A "img.jpg",
+    regions := [.mk (A "r1") ["paragraph"] true [jl "l1" [jw "w1"], jl "l2" []] [.mk (A "r2") [] false [jl "l3" []] [.mk (A "r3") [] true [] []]],
+                .mk (A "r4") [] false [] []],
+    tables := [{ a := A "t", addT := ["tab"], rows := [.node .row false (A "row0") [.node .cell false (A "c0") [jl "cl" []]]] }],
+    file := "doc.xml" }
+
+example : pscan.valid = true := by decide
+example : ((pscan.hist 0).1.length, (pscan.hist 0).2) = (22, 12) := by decide
+example : ∃ σ, run Store.empty (pscan.hist 0).1 = .ok σ ∧ Inv σ ∧ clsOf σ (pscan.hist 0).2 = some .scan := by
+  obtain ⟨σ, hr, _, hi, _, hc, _⟩ := C02_parse_linked pscan (by decide) [] Store.empty rfl rfl
+  exact ⟨σ, hr, hi, hc⟩
+example : ∃ σ, run Store.empty (pscan.hist 0).1 = .ok σ := by
+  obtain ⟨σ, hr, _⟩ := C02_parsed_document_linked pscan (by decide)
+  exact ⟨σ, hr⟩
 
 end Pagexml.C02
